@@ -53,6 +53,7 @@ pub fn universe() -> Vec<MEvent> {
             tags: tags.into_iter().map(|t| t.into_iter().map(|s| s.to_string()).collect()).collect(),
             content_len: clen,
             idc: IdChoice::Hash,
+            many: 0,
         }
         .to_model()
     };
@@ -74,9 +75,12 @@ pub fn universe() -> Vec<MEvent> {
         tags: vec![vec!["e".to_string(), v[0].id.clone()], vec!["a".to_string(), format!("10002:{a0}:")]],
         content_len: 0,
         idc: IdChoice::Hash,
+        many: 0,
     }
     .to_model();
     v.push(del);
+    // 8: an ephemeral event (stored in the map, never indexed)
+    v.push(g(1, 20001, 106, vec![vec!["t", "x"]], 120));
     v
 }
 
@@ -136,10 +140,16 @@ fn pause_here(name: &'static str) {
     });
 }
 
+/// (event index, offset) of every successful store of the concurrent run
+static STORED: std::sync::Mutex<Vec<(u64, usize, u64)>> = std::sync::Mutex::new(Vec::new());
+
 fn exec(st: &Store, u: &[MEvent], owned: &[pocket_types::OwnedEvent], panel: &[MFilter], op: &WOp) -> String {
     let r = guard("concurrent op", || match op {
         WOp::Store(i) => match st.store_event(&owned[*i as usize % owned.len()]) {
-            Ok(_) => "ok".to_string(),
+            Ok(off) => {
+                STORED.lock().unwrap().push((st as *const Store as u64, *i as usize % owned.len(), off));
+                "ok".to_string()
+            }
             Err(e) => classify_err(&e).class().to_string(),
         },
         WOp::Remove(i) => match st.remove_event(Id::from_bytes(u[*i as usize % u.len()].id_arr())) {
@@ -195,6 +205,11 @@ fn exec(st: &Store, u: &[MEvent], owned: &[pocket_types::OwnedEvent], panel: &[M
         Ok(s) => s,
         Err(f) => format!("PANIC:{}", f.key),
     }
+}
+
+fn forget_stored(st: &Store) {
+    let me = st as *const Store as u64;
+    STORED.lock().unwrap().retain(|x| x.0 != me);
 }
 
 fn is_write(op: &WOp) -> bool {
@@ -522,7 +537,7 @@ impl Prop for C14 {
     }
     fn strategy(&self, tier: Tier) -> BoxedStrategy<Case> {
         let wop = prop_oneof![
-            6 => (0u8..8).prop_map(WOp::Store),
+            6 => (0u8..9).prop_map(WOp::Store),
             1 => (0u8..7).prop_map(WOp::Remove),
             1 => (0u8..7).prop_map(WOp::GetById),
             1 => (0u8..7).prop_map(WOp::Has),
@@ -538,14 +553,23 @@ impl Prop for C14 {
         // scenario template: one reader running a multi-range query, one writer storing events that fall into
         // different ranges of that query (in scan order or reversed), optionally more threads
         // (query, events of its first-scanned range, events of a later range)
+        // (query, events of its first-scanned range, events of a later range, events stored beforehand)
         let scen = prop::sample::select(vec![
-            (3u8, vec![1u8, 2, 6], vec![3u8, 4]),
-            (9, vec![0], vec![5]),
-            (10, vec![5], vec![0, 1, 3]),
-            (4, vec![0, 1, 2, 5], vec![3, 4, 6]),
-            (6, vec![0, 1, 2], vec![5]),
-            (0, vec![1], vec![2, 6]),
-            (1, vec![3], vec![4, 0]),
+            (3u8, vec![1u8, 2, 6], vec![3u8, 4], vec![]),
+            (9, vec![0], vec![5], vec![]),
+            (10, vec![5], vec![0, 1, 3], vec![]),
+            (4, vec![0, 1, 2, 5], vec![3, 4, 6], vec![]),
+            (6, vec![0, 1, 2], vec![5], vec![]),
+            (0, vec![1], vec![2, 6], vec![]),
+            (1, vec![3], vec![4, 0], vec![]),
+            // a replacement followed by a deletion request that names another queried, stored event
+            (1, vec![4], vec![7], vec![3u8, 0]),
+            (0, vec![2], vec![7], vec![1, 0]),
+            (2, vec![2, 4], vec![7], vec![0, 1]),
+            (7, vec![2], vec![7], vec![0, 1, 5]),
+            // an ephemeral store next to a regular one (map append / growth bookkeeping)
+            (7, vec![8], vec![0, 5], vec![]),
+            (2, vec![0], vec![8], vec![]),
         ]);
         let templated = (
             scen,
@@ -554,9 +578,10 @@ impl Prop for C14 {
             prop::collection::vec(prop::collection::vec(wop, 1..3), 0..2),
             prop::collection::vec(0u8..7, 0..3),
             prop::collection::vec(any::<u8>(), 0..12),
+            prop::option::weighted(0.6, (prop::sample::select(vec![3u8, 5, 7, 8, 9, 10]), any::<bool>())),
             Just(tier.pick(0u16, 3)),
         )
-            .prop_map(|((q, first, later), pick, reversed, extra, initial, schedule, stress_rounds)| {
+            .prop_map(|((q, first, later, init), pick, reversed, extra, initial, schedule, prefix, stress_rounds)| {
                 let a = first[pick[0] as usize % first.len()];
                 let b = later[pick[1] as usize % later.len()];
                 let mut writer = if reversed { vec![WOp::Store(b), WOp::Store(a)] } else { vec![WOp::Store(a), WOp::Store(b)] };
@@ -564,11 +589,22 @@ impl Prop for C14 {
                     writer.push(WOp::Store(later[pick[3] as usize % later.len()]));
                 }
                 let mut threads = vec![vec![WOp::Query(q)], writer];
-                threads.extend(extra);
+                let mut reader = 0u8;
                 if pick[2] % 2 == 0 {
                     threads.swap(0, 1);
+                    reader = 1;
                 }
-                Case { threads, initial, schedule, stress_rounds }
+                threads.extend(extra);
+                let initial = if init.is_empty() { initial } else { init };
+                // structured schedule prefix: the reader runs a few steps, then the writer runs to its end
+                let mut sched = Vec::new();
+                if let Some((code, spec)) = prefix {
+                    sched.push((code << 3) | reader);
+                    // the reader is paused now; among the runnable workers the writer is the first or second
+                    sched.push((15 << 3) | if reader == 0 { 1 } else { 0 } | if spec { 0x80 } else { 0 });
+                }
+                sched.extend(schedule);
+                Case { threads, initial, schedule: sched, stress_rounds }
             });
         prop_oneof![3 => free, 2 => templated].boxed()
     }
@@ -586,6 +622,7 @@ impl Prop for C14 {
                 return out;
             }
         };
+        forget_stored(w.st());
         let log = match run_controlled(w.st(), &u, &w.owned, &panel, c) {
             Ok(l) => l,
             Err(e) => {
@@ -630,6 +667,32 @@ impl Prop for C14 {
         if by_event.values().any(|n| *n >= 2) {
             out.label("same-event-from-two-threads");
         }
+        // every offset handed out during the concurrent run reads back the event that was stored there
+        {
+            let me = w.st() as *const Store as u64;
+            let mut all = STORED.lock().unwrap();
+            let mine: Vec<(usize, u64)> = all.iter().filter(|x| x.0 == me).map(|x| (x.1, x.2)).collect();
+            all.retain(|x| x.0 != me);
+            drop(all);
+            let mut seen = std::collections::BTreeSet::new();
+            for (i, off) in mine {
+                if !seen.insert(off) {
+                    out.fail("C14:offset-handed-out-twice", format!("offset {off}"));
+                    return out;
+                }
+                match w.get_by_offset(off) {
+                    Ok(b) if b == w.owned[i].as_bytes() => {}
+                    Ok(_) => {
+                        out.fail("C14:stored-bytes-damaged", format!("event {i} stored at offset {off} during the concurrent run does not read back"));
+                        return out;
+                    }
+                    Err(e) => {
+                        out.fail(format!("C14:stored-offset-unreadable:{e}"), format!("event {i} at offset {off}"));
+                        return out;
+                    }
+                }
+            }
+        }
         // final state of the concurrent run
         let final_conc = match w.snapshot() {
             Ok(s) => s,
@@ -646,6 +709,7 @@ impl Prop for C14 {
                 return out;
             }
         };
+        forget_stored(rw.st());
         let eval_reads = |rw: &World, k: usize, reads: &[ReadRec], acc: &mut Vec<Vec<(usize, String)>>| {
             for (ri, r) in reads.iter().enumerate() {
                 if r.c1 <= k && k <= r.c2 {
@@ -708,6 +772,8 @@ impl Prop for C14 {
                 return out;
             }
         }
+        forget_stored(rw.st());
+        forget_stored(w.st());
         drop(rw);
         drop(w);
 
@@ -734,6 +800,7 @@ impl Prop for C14 {
                 hs.into_iter().map(|h| h.join().unwrap_or_default()).collect()
             });
             out.label("stress-round");
+            forget_stored(sw.st());
             for (t, rs) in results.iter().enumerate() {
                 for (i, r) in rs.iter().enumerate() {
                     if r.contains("PANIC") || r.contains("WRONG-BYTES") || r.contains("UNKNOWN") || r == "other-error" || r.starts_with("err:") {
